@@ -494,14 +494,33 @@ impl BK for (u8, u16, u32) {
     }
 }
 
-pub const KINDS: usize = 43;
-pub const NONCLONE_KIND: u8 = 42;
+// fixed-size arrays whose elements differ in length
+impl BK for [Option<u32>; 4] {
+    fn mk(seed: u64) -> Self {
+        std::array::from_fn(|i| ((seed >> i) & 1 == 1).then_some(seed.wrapping_add(i as u64) as u32))
+    }
+    fn want_len(seed: u64) -> usize {
+        // an absent value has no length, a present u32 has 4 bytes
+        (0..4).map(|i| if (seed >> i) & 1 == 1 { 4 } else { 0 }).sum()
+    }
+}
+impl BK for [String; 3] {
+    fn mk(seed: u64) -> Self {
+        std::array::from_fn(|i| s_of(seed.wrapping_mul(i as u64 + 1).wrapping_add(i as u64)))
+    }
+    fn want_len(seed: u64) -> usize {
+        (0..3u64).map(|i| (seed.wrapping_mul(i + 1).wrapping_add(i) % 23) as usize).sum()
+    }
+}
+
+pub const KINDS: usize = 45;
+pub const NONCLONE_KIND: u8 = 44;
 const KIND_NAMES: [&str; KINDS] = [
     "u8", "u16", "u32", "i32", "u64", "i64", "u128", "usize", "i8", "f32", "f64", "bool", "char", "()", "String", "&str",
     "Option<u32>", "Option<String>", "Result<u16,String>", "Vec<u8>", "Vec<String>", "[u16;3]", "BTreeMap<u8,String>",
     "(u8,String)", "Box<u32>", "A(u32)", "B(u32)", "Named", "Unit", "En", "Gen<String>", "Gen<u32>", "ZstDrop", "Tok",
     "Vec<Tok>", "VecDeque<u16> (wrapped)", "VecDeque<String> (wrapped)", "LinkedList<u16>", "BTreeSet<u16>", "BinaryHeap<u32>",
-    "SocketAddr", "(u8,u16,u32)", "NonClone",
+    "SocketAddr", "(u8,u16,u32)", "[Option<u32>;4]", "[String;3]", "NonClone",
 ];
 /// kinds that share size and alignment with u32 (the "impostors")
 const LAYOUT_U32: [u8; 8] = [2, 3, 9, 12, 24, 25, 26, 31];
@@ -552,6 +571,8 @@ macro_rules! with_kind {
             39 => $f::<BinaryHeap<u32>>($($arg),*),
             40 => $f::<std::net::SocketAddr>($($arg),*),
             41 => $f::<(u8, u16, u32)>($($arg),*),
+            42 => $f::<[Option<u32>; 4]>($($arg),*),
+            43 => $f::<[String; 3]>($($arg),*),
             _ => $f::<NonClone>($($arg),*),
         }
     };
@@ -637,7 +658,8 @@ fn do_set(msg: &mut Message, kind: u8, seed: u64) {
        18 => Result<u16, String>, 19 => Vec<u8>, 20 => Vec<String>, 21 => [u16; 3], 22 => BTreeMap<u8, String>,
        23 => (u8, String), 24 => Box<u32>, 25 => A, 26 => B, 27 => Named, 28 => Unit, 29 => En, 30 => Gen<String>,
        31 => Gen<u32>, 32 => ZstDrop, 33 => Tok, 34 => Vec<Tok>, 35 => VecDeque<u16>, 36 => VecDeque<String>,
-       37 => LinkedList<u16>, 38 => BTreeSet<u16>, 39 => BinaryHeap<u32>, 40 => std::net::SocketAddr, 41 => (u8, u16, u32))
+       37 => LinkedList<u16>, 38 => BTreeSet<u16>, 39 => BinaryHeap<u32>, 40 => std::net::SocketAddr, 41 => (u8, u16, u32),
+       42 => [Option<u32>; 4], 43 => [String; 3])
 }
 
 // `Message::try_cast` needs `Send`; Tok-based kinds are Send (plain data).
@@ -910,7 +932,7 @@ impl Prop for C16 {
 
     fn rule() -> String {
         "proptest op sequences over 3 message slots: Set(kind,seed) | SetNonClonable | Clone | TryClone | TryCast<T'> | TryContent<T'> | TryContentMut<T'> | \
-         CanCast<T'> | Length | Drop | ClearBody with T, T' from 43 body types (primitives, strings, Option/Result, collections incl. deques with wrapped storage, linked lists, sets and heaps, socket addresses, arrays, tuples, Box, \
+         CanCast<T'> | Length | Drop | ClearBody with T, T' from 45 body types (primitives, strings, Option/Result, collections incl. deques with wrapped storage, linked lists, sets and heaps, socket addresses, arrays, tuples, Box, \
          derived tuple/named/unit structs, derived enum, derived generic struct, a ZST with Drop, instance-tracked droppable values, a non-clonable \
          type, and layout-compatible impostors A(u32)/B(u32)/u32/i32/f32/char/Box<u32>/Gen<u32>). Oracle: model (type tag, seed): read/cast succeeds \
          iff T' == tag and returns the stored value (Debug form); failed casts leave header and body intact; try_clone is Some iff clonable; after \
